@@ -41,7 +41,7 @@ def chart_proj(c, fmt):
 
 
 SMOOTH = {
-    "BPMS": ["0=160", "0=160,4=80", "0.000=80,\n2.000=320,\n6=40", "0=640,1=64,3.5=128", "0=40"],
+    "BPMS": ["0=160", "0=160,4=80", "0.000=80,\n2.000=320,\n6=40", "0=640,1=64,3.5=128", "0=40", "0=20,2=10"],
     "STOPS": ["", "1=0.5", "2=0.25,5=1", "0=0.125", "4.5=2,6=0.5"],
     "DELAYS": ["", "3=0.5", "2=0.25", "1=1,5=0.125"],
     "WARPS": ["", "4=2", "1=0.5,1.25=1", "2=1,3=1", "0=1", "2=0.021"],
